@@ -222,14 +222,79 @@ func (f *fctx) heap(key string, elem *Sort) Term {
 	}
 	// first use: the initial heap array
 	as := ArrOf(elem)
-	if _, ok := f.vc.heapSorts[key]; !ok {
+	if hs, ok := f.vc.heapSorts[key]; !ok {
 		f.vc.heapSorts[key] = as
+	} else {
+		as = hs
 	}
 	name := key + "!0"
 	t := Term{S: name, Sort: as}
 	// initial heap constants are declared globally (see render)
 	f.cur.cells[key] = t
 	return t
+}
+
+// ghostSort: the nested array sort of a ghost relation (result Bool).
+func (vc *VC) ghostSort(name string) (*Sort, []*Sort, bool) {
+	if vc.cs == nil {
+		return nil, nil, false
+	}
+	names, ok := vc.cs.Ghosts[name]
+	if !ok {
+		return nil, nil, false
+	}
+	var args []*Sort
+	for _, n := range names {
+		args = append(args, sortByName(n))
+	}
+	s := SBool
+	for i := len(args) - 1; i >= 0; i-- {
+		s = ArrKV(args[i], s)
+	}
+	return s, args, true
+}
+
+func ghostKey(name string) string { return "H$ghost$" + name }
+
+// ghostIn applies a ghost relation in state st.
+func (f *fctx) ghostIn(st *State, name string, a []Term) (Term, bool) {
+	s, args, ok := f.vc.ghostSort(name)
+	if !ok {
+		return Term{}, false
+	}
+	if len(a) != len(args) {
+		specFail("ghost relation %s expects %d arguments", name, len(args))
+	}
+	key := ghostKey(name)
+	if _, ok := f.vc.heapSorts[key]; !ok {
+		f.vc.heapSorts[key] = s
+	}
+	cur, ok := st.cells[key]
+	if !ok {
+		cur = Term{S: key + "!0", Sort: s}
+	}
+	str := cur.S
+	for _, x := range a {
+		str = "(select " + str + " " + x.S + ")"
+	}
+	return Term{S: str, Sort: SBool}, true
+}
+
+func (f *fctx) ghostResolver(st *State) func(name string, args []Term) (Term, bool) {
+	return func(name string, args []Term) (Term, bool) { return f.ghostIn(st, name, args) }
+}
+
+// havocGhosts gives the ghost relations a contract may modify a fresh value.
+func (f *fctx) havocGhosts(names []string) {
+	for _, n := range names {
+		s, _, ok := f.vc.ghostSort(n)
+		if !ok {
+			panic(specErr{"modifies: unknown ghost relation " + n})
+		}
+		key := ghostKey(n)
+		f.vc.heapSorts[key] = s
+		f.cur.cells[key] = f.declare("g_"+n, s)
+	}
 }
 
 func (f *fctx) top() Term {
@@ -664,9 +729,9 @@ func (f *fctx) contractEnv(con *Contract, fn *ssa.Function, args []Term, results
 	sorts := f.vc.typeParamSorts(fn)
 	pure := f.vc.pureResolver(fn)
 	reveal := f.revealSet()
-	env := &Env{Vars: vars, FieldOf: mk(st), Defs: f.vc.cs.Defs, Sorts: sorts, Pure: pure, Reveal: reveal}
+	env := &Env{Vars: vars, FieldOf: mk(st), Defs: f.vc.cs.Defs, Sorts: sorts, Pure: pure, Reveal: reveal, Ghost: f.ghostResolver(st)}
 	if pre != nil {
-		env.Old = &Env{Vars: vars, FieldOf: mk(pre), Defs: f.vc.cs.Defs, Sorts: sorts, Pure: pure, Reveal: reveal}
+		env.Old = &Env{Vars: vars, FieldOf: mk(pre), Defs: f.vc.cs.Defs, Sorts: sorts, Pure: pure, Reveal: reveal, Ghost: f.ghostResolver(pre)}
 	}
 	return env
 }
@@ -1518,6 +1583,12 @@ func (f *fctx) loopModifies(h *ssa.BasicBlock) map[string]bool {
 						}
 					}
 					if con := f.vc.contractOf(callee); con != nil {
+						for _, g := range con.Modifies {
+							mod[ghostKey(g)] = true
+							if gs, _, ok := f.vc.ghostSort(g); ok {
+								f.vc.heapSorts[ghostKey(g)] = gs
+							}
+						}
 						if len(con.Fresh) > 0 {
 							mod["top"] = true
 							rs := callee.Signature.Results()
@@ -1541,6 +1612,16 @@ func (f *fctx) loopModifies(h *ssa.BasicBlock) map[string]bool {
 								if strings.HasPrefix(k, "H$") {
 									f.registerHeapKey(k)
 								}
+							}
+						}
+					}
+				}
+				if com.IsInvoke() {
+					if con := f.vc.cs.Funcs[":invoke."+typeBaseName(com.Value.Type())+"."+com.Method.Name()]; con != nil {
+						for _, g := range con.Modifies {
+							mod[ghostKey(g)] = true
+							if gs, _, ok := f.vc.ghostSort(g); ok {
+								f.vc.heapSorts[ghostKey(g)] = gs
 							}
 						}
 					}
@@ -1803,9 +1884,9 @@ func (f *fctx) loopEnv(h *ssa.BasicBlock, from *ssa.BasicBlock, st *State) *Env 
 	sorts := f.vc.typeParamSorts(f.fn)
 	pure := f.vc.pureResolver(f.fn)
 	reveal := f.revealSet()
-	env := &Env{Vars: vars, Defs: f.vc.cs.Defs, Sorts: sorts, Funcs: funcs, Pure: pure, Reveal: reveal}
+	env := &Env{Vars: vars, Defs: f.vc.cs.Defs, Sorts: sorts, Funcs: funcs, Pure: pure, Reveal: reveal, Ghost: f.ghostResolver(st)}
 	env.FieldOf = func(x Term, field string) (Term, bool) { return f.fieldIn(st, x, field) }
-	env.Old = &Env{Vars: vars, Defs: f.vc.cs.Defs, Sorts: sorts, Funcs: funcs, Pure: pure, Reveal: reveal, FieldOf: func(x Term, field string) (Term, bool) { return f.fieldIn(f.entry, x, field) }}
+	env.Old = &Env{Vars: vars, Defs: f.vc.cs.Defs, Sorts: sorts, Funcs: funcs, Pure: pure, Reveal: reveal, Ghost: f.ghostResolver(f.entry), FieldOf: func(x Term, field string) (Term, bool) { return f.fieldIn(f.entry, x, field) }}
 	return env
 }
 
